@@ -84,7 +84,7 @@ pub fn extract(repo: &str, w: &mut World) -> Result<String, String> {
         let e: syn::Expr = syn::parse_str("(0.0, 0.0)").map_err(|e| e.to_string())?;
         const_expr(&mut out, w, "round_layout_cumulative_start", "the `cumulative_x, cumulative_y` `round_layout` starts `round_layout_inner` with", &e, &Ty::Tuple(vec![Ty::F32, Ty::F32]))?;
     }
-    out.function(w, Plan { head: String::new(), rust_name: "round_content_size".into(), lean_rel: "round_content_size".into(), self_ty: None, generics: HashMap::new(), sig: &rcs.sig, block: &rcs.block, required: true, trunc_sub: false });
+    out.function(w, Plan { head: String::new(), rust_name: "round_content_size".into(), lean_rel: "round_content_size".into(), self_ty: None, generics: HashMap::new(), sig: &rcs.sig, block: &rcs.block, required: true, trunc_sub: false, ext: Default::default() });
     // the block of one node
     let st = &inner.block.stmts;
     if st.is_empty() {
@@ -105,7 +105,7 @@ pub fn extract(repo: &str, w: &mut World) -> Result<String, String> {
     out.comment("`round_layout_inner`: the statements of one node, between `let unrounded_layout = *tree.get_unrounded_layout(node_id);` and");
     out.comment("`tree.set_final_layout(node_id, &layout);`, as a function of what they read; the result is `(layout, cumulative_x, cumulative_y)`:");
     out.comment("the layout written, and the cumulative coordinates every child is visited with (the loop after the block, compared token by token)");
-    out.function(w, Plan { head: String::new(), rust_name: "round_layout_inner (one node)".into(), lean_rel: "round_layout_inner_node".into(), self_ty: None, generics: HashMap::new(), sig: &sig, block: &block, required: true, trunc_sub: false });
+    out.function(w, Plan { head: String::new(), rust_name: "round_layout_inner (one node)".into(), lean_rel: "round_layout_inner_node".into(), self_ty: None, generics: HashMap::new(), sig: &sig, block: &block, required: true, trunc_sub: false, ext: Default::default() });
 
     // ---------------------------------------------------------------------------------------- compute_hidden_layout
     let ch = find("compute_hidden_layout")?;
